@@ -148,6 +148,8 @@ structure VReady (s : Nat) (p : Nat × Nat) (v : V) : Prop where
   parentW : s % W = 0 → (v.getS s).parentsReady.contains p = true
   parentI : s % W ≠ 0 → p.1 + 1 = s ∧ (v.getS p.1).votedNotar = some p.2
   quiet : ∀ j, votesOf s j v.log = []
+  /-- the highest finalized slot this Votor knows is the parent's -/
+  hfcsEq : v.hfcs = p.1
 
 /-- has notarized `(s, h)`; `fv`: has seen the notarization certificate (and cast the finalization vote); `nr`: has handled
     `ParentReady(s + 1, (s, h))`; `hf`: has seen a (fast-)finalization certificate of slot `s` -/
@@ -402,7 +404,7 @@ theorem VAt.ready_next {s h : Nat} {fv nr : Bool} {v : V} (a : VAt s h fv nr tru
     VReady (s + 1) (s, h) v := by
   have hh : v.hfcs = s := by simpa using a.hfcs
   refine ⟨a.alive, by omega, fun t ht => a.fresh t (by omega), a.noPending, fun hw => a.next (hn hw),
-    fun _ => ⟨rfl, a.votedNotar⟩, ?_⟩
+    fun _ => ⟨rfl, a.votedNotar⟩, ?_, hh⟩
   intro j
   rw [votesOf_succ, a.votes j]
   cases fv <;> simp
@@ -419,6 +421,7 @@ structure VSkipped (s E : Nat) (p : Nat × Nat) (nr : Bool) (v : V) : Prop where
   noPending : NoPending v
   votes : ∀ j, votesOf s j v.log = (List.range' s (E - s)).map (fun t => (⟨.skip, t, 0, j⟩ : Pool.Vote))
   next : nr = true → (v.getS E).parentsReady.contains p = true
+  hfcsEq : v.hfcs = p.1
 
 theorem NoPending.skipSlots : ∀ (l : List Nat) {v : V}, NoPending v → NoPending (v.skipSlots l) := by
   intro l
@@ -545,7 +548,8 @@ theorem step_timeout {s : Nat} {p : Nat × Nat} {v : V} (r : VReady s p v) :
   obtain ⟨i1, i2, i3, i4, _⟩ := skipSlots_spec s W (firstInWindow s) (v.logEv (.timeout s))
     (fun t h1 _ => (r.fresh t h1).1)
   rw [hst]
-  refine ⟨by rw [skipSlots_panicked]; exact r.alive, by simpa using r.hfcs, ?_, ?_, ?_, ?_, ?_, by intro h; cases h⟩
+  refine ⟨by rw [skipSlots_panicked]; exact r.alive, by simpa using r.hfcs, ?_, ?_, ?_, ?_, ?_, (by intro h; cases h),
+    by simpa using r.hfcsEq⟩
   · intro t h1 h2
     exact i2 t (Nat.le_trans (firstInWindow_le s) h1) h2 h1
   · intro t ht
@@ -572,7 +576,7 @@ theorem step_timeout_voted {s E t : Nat} {p : Nat × Nat} {nr : Bool} {v : V} (a
       have : ((v.logEv (.timeout t)).getS t).voted = true := a.voted t h1 h2
       rw [if_pos this]
   rw [hst]
-  refine ⟨a.alive, a.hfcs, a.voted, a.unretired, a.fresh, a.noPending, ?_, a.next⟩
+  refine ⟨a.alive, a.hfcs, a.voted, a.unretired, a.fresh, a.noPending, ?_, a.next, a.hfcsEq⟩
   intro j
   show votesOf s j (.ev (.timeout t) :: v.log) = _
   rw [votesOf_cons_ev, a.votes j]
@@ -589,7 +593,7 @@ theorem step_cert_skip {s E t h' : Nat} {p : Nat × Nat} {nr : Bool} {v : V} (a 
     simp only [hign, Bool.false_eq_true, if_false]
     rfl
   rw [hst]
-  refine ⟨a.alive, a.hfcs, a.voted, a.unretired, a.fresh, a.noPending, ?_, a.next⟩
+  refine ⟨a.alive, a.hfcs, a.voted, a.unretired, a.fresh, a.noPending, ?_, a.next, a.hfcsEq⟩
   intro j
   show votesOf s j (.out (.cert .skip t h') :: .ev (.cert .skip t h') :: v.log) = _
   rw [votesOf_cons_out, votesOf_cons_ev, a.votes j]
@@ -618,7 +622,7 @@ theorem step_parentReady_skipped {s E : Nat} {p : Nat × Nat} {nr : Bool} {v : V
     unfold V.setTimeouts
     rw [if_pos hw]
   rw [hst]
-  refine ⟨a.alive, by simpa using a.hfcs, ?_, ?_, ?_, hnp, ?_, ?_⟩
+  refine ⟨a.alive, by simpa using a.hfcs, ?_, ?_, ?_, hnp, ?_, ?_, by simpa using a.hfcsEq⟩
   · intro t h1 h2
     simp only [emit_getS]; rw [getS_upd_ne _ _ _ _ (by omega)]; exact a.voted t h1 h2
   · intro t h1
@@ -644,7 +648,7 @@ theorem step_parentReady_skipped {s E : Nat} {p : Nat × Nat} {nr : Bool} {v : V
 /-- the window is skipped: ready for the first slot of the next window, with the same parent -/
 theorem VSkipped.ready_next {s E : Nat} {p : Nat × Nat} {v : V} (a : VSkipped s E p true v) (hw : E % W = 0) (hsE : s < E) :
     VReady E p v := by
-  refine ⟨a.alive, by have := a.hfcs; omega, a.fresh, a.noPending, fun _ => a.next rfl, fun h => absurd hw h, ?_⟩
+  refine ⟨a.alive, by have := a.hfcs; omega, a.fresh, a.noPending, fun _ => a.next rfl, fun h => absurd hw h, ?_, a.hfcsEq⟩
   intro j
   have hv := a.votes j
   simp only [votesOf] at hv ⊢
